@@ -9,8 +9,11 @@ package gocql
 
 import (
 	"bufio"
+	"context"
 	"encoding/json"
+	"errors"
 	"fmt"
+	"math/big"
 	"math/rand"
 	"net"
 	"os"
@@ -18,6 +21,7 @@ import (
 	"strconv"
 	"strings"
 	"testing"
+	"time"
 )
 
 // vfC10Case is one placement case: a ring, a datacenter/rack layout and a keyspace.
@@ -36,6 +40,14 @@ type vfC10Case struct {
 	Form   string   `json:"form"` // "int" | "str": type of the replication factor option values
 	Parts  []string `json:"parts"`
 	Down   []int    `json:"down"` // node ids whose state is DOWN while the ring and the replica map are built
+	// Spread: how the abstract tokens are laid out in the partitioner's token space:
+	// "" / "compact", "full" (smallest value -> minimum token, largest -> maximum token),
+	// "edge" (half of the values next to the minimum, half next to the maximum), "zero" (consecutive around 0)
+	Spread string `json:"spread"`
+	// Pol: additionally build the replica map through a real TokenAwareHostPolicy with this fallback /
+	// these options ("rr" | "dc" | "rack", + "-shuffle", + "-nonlocal"), route queries through it and read
+	// the map the policy holds AFTERWARDS ("" = not done)
+	Pol string `json:"pol"`
 }
 
 type vfC10Entry struct {
@@ -56,7 +68,11 @@ type vfC10Vector struct {
 	RfN    []int        `json:"rfn"`
 	Tokens []int        `json:"tokens"`
 	Down   []int        `json:"down"`
-	PClass string       `json:"pclass"` // none | mapsize | map-other | lookup | build
+	Spread string       `json:"spread"`
+	Pol    string       `json:"pol"`
+	Map2   []vfC10Entry `json:"map2"`   // the replica map a token aware policy holds after routing queries
+	Look2  []vfC10Entry `json:"look2"`  // ... and its lookups
+	PClass string       `json:"pclass"` // none | mapsize | map-other | lookup | build | policy
 	PMsg   string       `json:"pmsg"`
 	Map    []vfC10Entry `json:"map"`
 	Look   []vfC10Entry `json:"look"`
@@ -86,10 +102,110 @@ func vfC10Tok(part string, v int) string {
 	panic("vfC10Tok: unknown partitioner " + part)
 }
 
+// vfC10TokMap returns the strictly monotone map from the abstract integer tokens of a case (ring
+// tokens and lookup tokens) to textual tokens of the partitioner, laid out as c.Spread says: the
+// whole token space is used, including its minimum and maximum, neighbours of both, values around
+// zero and pairs that are further apart than half the space.
+func vfC10TokMap(c *vfC10Case, part string) func(v int) string {
+	if c.Spread == "" || c.Spread == "compact" {
+		return func(v int) string { return vfC10Tok(part, v) }
+	}
+	seen := map[int]bool{}
+	var vals []int
+	add := func(v int) {
+		if !seen[v] {
+			seen[v] = true
+			vals = append(vals, v)
+		}
+	}
+	for _, t := range c.Tokens {
+		add(t)
+	}
+	for _, l := range c.Look {
+		add(l[0])
+	}
+	sort.Ints(vals)
+	n := len(vals)
+	rank := make(map[int]int, n)
+	for r, v := range vals {
+		rank[v] = r
+	}
+	lo, hi := vals[0], vals[n-1]
+	// scaled(v, span) = (v-lo)*span/(hi-lo): 0 for lo, span for hi
+	scaled := func(v int, span *big.Int) *big.Int {
+		if hi == lo {
+			return new(big.Int)
+		}
+		x := new(big.Int).Mul(big.NewInt(int64(v-lo)), span)
+		return x.Div(x, big.NewInt(int64(hi-lo)))
+	}
+	one := big.NewInt(1)
+	switch part {
+	case "Murmur3Partitioner":
+		min := new(big.Int).Lsh(one, 63)
+		min.Neg(min)                                            // -2^63
+		max := new(big.Int).Sub(new(big.Int).Lsh(one, 63), one) // 2^63-1
+		span := new(big.Int).Sub(new(big.Int).Lsh(one, 64), one)
+		return func(v int) string {
+			r := rank[v]
+			switch c.Spread {
+			case "full":
+				return new(big.Int).Add(min, scaled(v, span)).String()
+			case "edge":
+				if r < n/2 {
+					return new(big.Int).Add(min, big.NewInt(int64(r))).String()
+				}
+				return new(big.Int).Sub(max, big.NewInt(int64(n-1-r))).String()
+			default: // zero
+				return strconv.Itoa(r - n/2)
+			}
+		}
+	case "RandomPartitioner":
+		max := new(big.Int).Sub(new(big.Int).Lsh(one, 127), one) // 2^127-1
+		return func(v int) string {
+			r := rank[v]
+			switch c.Spread {
+			case "full":
+				return scaled(v, max).String()
+			case "edge":
+				if r < n/2 {
+					return strconv.Itoa(r)
+				}
+				return new(big.Int).Sub(max, big.NewInt(int64(n-1-r))).String()
+			default:
+				return strconv.Itoa(r)
+			}
+		}
+	case "OrderedPartitioner":
+		return func(v int) string {
+			r := rank[v]
+			switch c.Spread {
+			case "full":
+				// "" < 3 big-endian bytes (unsigned byte order, values above 0x7f included) <= ff ff ff
+				if r == 0 {
+					return ""
+				}
+				x := scaled(v, big.NewInt(0xFFFFFF)).Int64()
+				return string([]byte{byte(x >> 16), byte(x >> 8), byte(x)})
+			case "edge":
+				// "", 00, 00 00, ... below; ff, ff ff, ... above (proper prefixes, extreme bytes)
+				if r < n/2 {
+					return strings.Repeat("\x00", r)
+				}
+				return strings.Repeat("\xff", r-n/2+1)
+			default:
+				return vfC10Tok(part, v)
+			}
+		}
+	}
+	panic("vfC10TokMap: unknown partitioner " + part)
+}
+
 func vfC10Hosts(c *vfC10Case, part string) []*HostInfo {
+	tm := vfC10TokMap(c, part)
 	toks := make([][]string, len(c.Dc))
 	for k, h := range c.Ring {
-		toks[h-1] = append(toks[h-1], vfC10Tok(part, c.Tokens[k]))
+		toks[h-1] = append(toks[h-1], tm(c.Tokens[k]))
 	}
 	hosts := make([]*HostInfo, len(c.Dc))
 	for i := range c.Dc {
@@ -147,7 +263,8 @@ func vfC10Ids(idx map[*HostInfo]int, hs []*HostInfo) []int {
 // vfC10Run executes one case on the real code for one partitioner.
 func vfC10Run(c *vfC10Case, part string) (v vfC10Vector) {
 	v = vfC10Vector{ID: c.ID, Part: part, Form: c.Form, Ring: c.Ring, Dc: c.Dc, Rack: c.Rack, Strat: c.Strat,
-		RfDc: c.RfDc, RfN: c.RfN, Tokens: c.Tokens, Down: append([]int{}, c.Down...), PClass: "none", Map: []vfC10Entry{}, Look: []vfC10Entry{}}
+		RfDc: c.RfDc, RfN: c.RfN, Tokens: c.Tokens, Down: append([]int{}, c.Down...), Spread: c.Spread, Pol: c.Pol,
+		PClass: "none", Map: []vfC10Entry{}, Look: []vfC10Entry{}, Map2: []vfC10Entry{}, Look2: []vfC10Entry{}}
 	stage := "build"
 	defer func() {
 		if r := recover(); r != nil {
@@ -160,9 +277,10 @@ func vfC10Run(c *vfC10Case, part string) (v vfC10Vector) {
 			default:
 				v.PClass = stage
 			}
-			v.Map, v.Look = []vfC10Entry{}, []vfC10Entry{}
+			v.Map, v.Look, v.Map2, v.Look2 = []vfC10Entry{}, []vfC10Entry{}, []vfC10Entry{}, []vfC10Entry{}
 		}
 	}()
+	tm := vfC10TokMap(c, part)
 	hosts := vfC10Hosts(c, part)
 	idx := make(map[*HostInfo]int, len(hosts))
 	for i, h := range hosts {
@@ -179,7 +297,7 @@ func vfC10Run(c *vfC10Case, part string) (v vfC10Vector) {
 	// abstract value of a concrete token, to report the replica map by abstract token
 	abs := make(map[string]int, len(c.Tokens))
 	for _, t := range c.Tokens {
-		abs[tr.partitioner.ParseString(vfC10Tok(part, t)).String()] = t
+		abs[tr.partitioner.ParseString(tm(t)).String()] = t
 	}
 	stage = "map"
 	rm := strat.replicaMap(tr)
@@ -192,14 +310,133 @@ func vfC10Run(c *vfC10Case, part string) (v vfC10Vector) {
 	}
 	stage = "lookup"
 	for _, l := range c.Look {
-		ht := rm.replicasFor(tr.partitioner.ParseString(vfC10Tok(part, l[0])))
+		ht := rm.replicasFor(tr.partitioner.ParseString(tm(l[0])))
 		var hs []*HostInfo
 		if ht != nil {
 			hs = ht.hosts
 		}
 		v.Look = append(v.Look, vfC10Entry{T: l[0], Hosts: vfC10Ids(idx, hs)})
 	}
+	if c.Pol != "" {
+		stage = "policy"
+		v.Map2, v.Look2 = vfC10ViaPolicy(c, part, tm, abs)
+	}
 	return v
+}
+
+// vfC10Query is a minimal ExecutableQuery (routing key and keyspace only).
+type vfC10Query struct{ key []byte }
+
+func (q *vfC10Query) borrowForExecution()                                    {}
+func (q *vfC10Query) releaseAfterExecution()                                 {}
+func (q *vfC10Query) execute(ctx context.Context, conn *Conn) *Iter          { return nil }
+func (q *vfC10Query) attempt(string, time.Time, time.Time, *Iter, *HostInfo) {}
+func (q *vfC10Query) retryPolicy() RetryPolicy                               { return nil }
+func (q *vfC10Query) speculativeExecutionPolicy() SpeculativeExecutionPolicy { return nil }
+func (q *vfC10Query) GetRoutingKey() ([]byte, error)                         { return q.key, nil }
+func (q *vfC10Query) Keyspace() string                                       { return "vfks" }
+func (q *vfC10Query) Table() string                                          { return "vft" }
+func (q *vfC10Query) IsIdempotent() bool                                     { return true }
+func (q *vfC10Query) withContext(context.Context) ExecutableQuery            { return q }
+func (q *vfC10Query) Attempts() int                                          { return 0 }
+func (q *vfC10Query) SetConsistency(c Consistency)                           {}
+func (q *vfC10Query) GetConsistency() Consistency                            { return Quorum }
+func (q *vfC10Query) Context() context.Context                               { return context.Background() }
+
+// vfC10ViaPolicy builds the replica map the way a session does - a real TokenAwareHostPolicy over the
+// fallback / with the options named by c.Pol gets the hosts, the partitioner and the keyspace - then
+// routes queries through it (Pick, iterator drained) and returns the replica map the policy holds
+// AFTER that, with its lookups.  "The replicas the driver associates with a token" must not depend on
+// which queries were routed before.
+func vfC10ViaPolicy(c *vfC10Case, part string, tm func(int) string, abs map[string]int) (m, look []vfC10Entry) {
+	m, look = []vfC10Entry{}, []vfC10Entry{}
+	hosts := vfC10Hosts(c, part)
+	idx := make(map[*HostInfo]int, len(hosts))
+	for i, h := range hosts {
+		idx[h] = i + 1
+	}
+	var base HostSelectionPolicy
+	switch {
+	case strings.HasPrefix(c.Pol, "rack"):
+		base = RackAwareRoundRobinPolicy("dc1", "r1")
+	case strings.HasPrefix(c.Pol, "dc"):
+		base = DCAwareRoundRobinPolicy("dc1")
+	default:
+		base = RoundRobinHostPolicy()
+	}
+	var opts []func(*tokenAwareHostPolicy)
+	if strings.Contains(c.Pol, "-shuffle") {
+		opts = append(opts, ShuffleReplicas())
+	}
+	if strings.Contains(c.Pol, "-nonlocal") {
+		opts = append(opts, NonLocalReplicasFallback())
+	}
+	pol := TokenAwareHostPolicy(base, opts...)
+	ta := pol.(*tokenAwareHostPolicy)
+	ks := vfC10Keyspace(c)
+	ta.getKeyspaceName = func() string { return "vfks" }
+	ta.getKeyspaceMetadata = func(name string) (*KeyspaceMetadata, error) {
+		if name != "vfks" {
+			return nil, errors.New("vf: unknown keyspace")
+		}
+		return ks, nil
+	}
+	ta.logger = nopLogger{}
+	pname := "org.apache.cassandra.dht." + part
+	if c.ID%2 == 0 {
+		pol.SetPartitioner(pname)
+	}
+	for _, h := range hosts {
+		pol.AddHost(h)
+	}
+	pol.SetPartitioner(pname)
+	pol.KeyspaceChanged(KeyspaceUpdateEvent{Keyspace: "vfks", Change: "UPDATED"})
+	// route queries: with the order preserving partitioner the key is the token, so every lookup class
+	// is hit; otherwise arbitrary keys
+	var keys [][]byte
+	if part == "OrderedPartitioner" {
+		for _, l := range c.Look {
+			keys = append(keys, []byte(tm(l[0])))
+		}
+	} else {
+		for i := 0; i < 24; i++ {
+			keys = append(keys, []byte("vfkey-"+strconv.Itoa(i*7919+c.ID)))
+		}
+	}
+	for _, k := range keys {
+		if len(k) == 0 {
+			continue // an empty routing key means "no routing key" to the policy
+		}
+		for rep := 0; rep < 2; rep++ {
+			next := pol.Pick(&vfC10Query{key: k})
+			for i := 0; i < 4*len(hosts)+8; i++ {
+				if next() == nil {
+					break
+				}
+			}
+		}
+	}
+	meta := ta.getMetadataReadOnly()
+	if meta == nil || meta.tokenRing == nil {
+		panic("the policy holds no token ring")
+	}
+	rm := meta.replicas["vfks"]
+	for _, e := range rm {
+		t, ok := abs[e.token.String()]
+		if !ok {
+			t = -1
+		}
+		m = append(m, vfC10Entry{T: t, Hosts: vfC10Ids(idx, e.hosts)})
+	}
+	for _, l := range c.Look {
+		ht := rm.replicasFor(meta.tokenRing.partitioner.ParseString(tm(l[0])))
+		var hs []*HostInfo
+		if ht != nil {
+			hs = ht.hosts
+		}
+		look = append(look, vfC10Entry{T: l[0], Hosts: vfC10Ids(idx, hs)})
+	}
+	return m, look
 }
 
 func vfC10Env(t *testing.T, name string) string {
@@ -340,6 +577,10 @@ func vfC10RandomCase(rnd *rand.Rand, id, maxNodes, maxVnodes int) *vfC10Case {
 		if c.RfDc == nil {
 			c.RfDc, c.RfN = []string{}, []int{}
 		}
+	}
+	c.Spread = []string{"compact", "full", "edge", "zero"}[rnd.Intn(4)]
+	if rnd.Intn(3) == 0 {
+		c.Pol = []string{"rr", "dc", "rack"}[rnd.Intn(3)] + []string{"", "-shuffle"}[rnd.Intn(2)] + []string{"", "-nonlocal"}[rnd.Intn(2)]
 	}
 	// some nodes are down while the ring is built
 	c.Down = []int{}
